@@ -35,6 +35,7 @@ GEN = {
 
 SEPARATORS = set(b'()<>@,;:\\"/[]?={} \t')
 TOKEN_BCHARS = b"0123456789abcdefghijklmnopqrstuvwxyzABCDEFGHIJKLMNOPQRSTUVWXYZ'+_-."
+TOKEN_EDGE = b'!~#$%&*^`|'        # the remaining token characters, incl. both ends of the 0x21..0x7E range
 QUOTED_BCHARS = b"(),/:=? "
 
 
@@ -146,6 +147,8 @@ def gen_key(rng):
         k = (pat * 70)[:ln]
     elif mode == 3:
         k = bytes(rng.choice(TOKEN_BCHARS + QUOTED_BCHARS) for _ in range(ln))
+    elif mode == 5:
+        k = bytes(rng.choice(TOKEN_EDGE + b'az09') for _ in range(ln))
     elif mode == 4:
         k = (b'--' + bytes(rng.choice(b'-x') for _ in range(70)))[:ln]
     else:
@@ -195,7 +198,7 @@ def gen_content(rng, key, maxlen):
     return c
 
 
-NAME_ALPHABETS = [b'abcxyz019_-.', b'ab "\\;=', bytes(range(0x80, 0x90)) + b'ab', b'a\x00\x01\t\x7f', b'name=;,/()']
+NAME_ALPHABETS = [b'abcxyz019_-.', b'!~#$%&*^`|az', b'~!a\x7f\x1f\x80 ', b'ab "\\;=', bytes(range(0x80, 0x90)) + b'ab', b'a\x00\x01\t\x7f', b'name=;,/()']
 
 
 def gen_hvalue(rng, allow_empty=True):
@@ -500,8 +503,11 @@ def gen_rq_cases(ctx):
         ct = enc_ct(rng, key, PLAIN)
         n = len(body)
         mode = rng.choice('nnmmr')
-        r = rng.randrange(4)
-        if r == 0:      # fewer bytes declared than the well-formed body has: the closing delimiter is cut off
+        r = rng.randrange(5)
+        if r == 4:      # the body stops early and the client gives up: no answer, nothing delivered
+            k = rng.randrange(0, n)
+            declared, sent = n, body[:k]
+        elif r == 0:    # fewer bytes declared than the well-formed body has: the closing delimiter is cut off
             declared, sent = rng.randrange(1, n), body
         elif r == 1:    # more declared than sent, then the client gives up
             declared, sent = n + rng.choice([1, 2, 5, 100]), body
